@@ -538,6 +538,12 @@ func SetValue(dest, v reflect.Value) {
 	case reflect.Uint, reflect.Uint8, reflect.Uint16, reflect.Uint32, reflect.Uint64:
 		dest.SetUint(EnsureUint64(v.Interface()))
 		return
+	case reflect.Map:
+		if v.Kind() == reflect.Map {
+			// a generic map read from an untyped wire map
+			dest.Set(convertMapItem(dest.Type(), v.Interface()))
+			return
+		}
 	}
 
 	dest.Set(v)
